@@ -42,11 +42,13 @@ def make_scenarios(rng, tier):
         sid += 1
     # the same pairing with FAILING rules next to the held one (pb fails, pc panics while pa is held at its gate): a call must
     # not return — and hand its instance and data back — while one of its rules is still running
-    for i in range(0, len(METHODS), 2):
+    # ... with continue-on-error and the held rule alone in the first stage (n=1), and with STOP-on-error and the failing rule in
+    # the held rule's own stage (n=2): a stage that gives up at the first failure must still wait for the rules it has started
+    for i, (bflag, n, m) in [(i, v) for i in range(0, len(METHODS), 2) for v in ((True, 1, 2), (False, 2, 1))]:
         sc = {"id": sid, "min": 1, "max": 2, "model": 1 + (i // 2) % 4, "rules": rules_v(1, kinds={"pb": "fail", "pc": "panic"}), "steps": []}
         names = ["pa", "pb", "pc"]
         a, b = sid * 1000 + 1, sid * 1000 + 2
-        sc["steps"] = [req_step(a, METHODS[i], names, hold_at="pa"), req_step(b, METHODS[i + 1], names, hold_at="pa"),
+        sc["steps"] = [req_step(a, METHODS[i], names, hold_at="pa", b=bflag, n=n, m=m), req_step(b, METHODS[i + 1], names, hold_at="pa", b=bflag, n=n, m=m),
                        {"op": "sleep", "wait_ms": 20},
                        {"op": "snapshot", "probe": names, "_active": [a, b], "_done": []},
                        {"op": "release", "id": b}, {"op": "release", "id": a},
@@ -129,7 +131,7 @@ def make_scenarios(rng, tier):
     return scs
 
 
-RULE = ("scenarios as C17 (overlap rounds and random walks over pool states) on pools (1,2),(2,3),(2,5) plus every one of the 24 wrapper methods paired on a (1,2) pool, once with sound rules and once with a failing and a panicking rule next to the held one: max requests held at a gate inside their first rule while snapshots read every instance's data context by reflection; "
+RULE = ("scenarios as C17 (overlap rounds and random walks over pool states) on pools (1,2),(2,3),(2,5) plus every one of the 24 wrapper methods paired on a (1,2) pool, once with sound rules and twice with a failing and a panicking rule next to the held one (continue-on-error with the held rule alone in its stage; stop-on-error with the failing rule in the held rule's stage): max requests held at a gate inside their first rule while snapshots read every instance's data context by reflection; "
         "every request carries a unique id in its own injected object and under a unique key (in eight scenarios also under the name of an api the pool was built with; in two, through the response slot alone of the two-object wrapper); rules echo the id into the returned values and into the request's object; "
         "checked inside Coq: the instances holding request keys are exactly the executing requests, one each; nothing of a returned request is left in any instance; returned maps contain only the caller's id and are unchanged when read again at the end; "
         "plus four scenarios on pools that were cleared and brought back into service by a full / incremental update; distinct non-trivial = snapshots taken while at least two requests were simultaneously inside a rule")
